@@ -36,11 +36,16 @@ RULE = ("catalogue of pairs of queries that differ in one component (types 1/257
         "the same Cache, after a flush, on top of newer entries or into a new Cache = restart, then every question asked "
         "again; optionally a second generation); redirect + lazy runs in which the background refresh of a stale hit "
         "does not land (upstream error, no response, truncated reply) and the target and another alias are asked "
-        "afterwards in both orders. A pair is non-trivial when both queries are "
+        "afterwards in both orders; [real Cache (lazy or not); flag-sensitive upstream]: queries (name, AD/CD/DO) whose "
+        "answer the upstream computes from the FULL query it receives (the address encodes the name and the flags it "
+        "saw), all 8 flag combinations stored, back-dated, refreshed by a stale hit and asked again, recording per "
+        "reply the flags its answer was computed for, per background refresh the (name, flags) that reached the "
+        "upstream, and what is held under the key of every (name, flags). A pair is non-trivial when both queries are "
         "cacheable and differ in exactly one of name/type/class/AD/CD/DO; a history when it has a hit and at least two "
         "cacheable non-hits; a redirect+lazy run when a background update followed a redirected stale hit and a "
         "query came after it; a chain run when a response was present on entry or the selector ran its reference "
-        "sub-query and a plain query came last; distinct = distinct Gallina literal")
+        "sub-query and a plain query came last; a flag run when a background refresh ran for a query with AD or CD set "
+        "and a query came after it; distinct = distinct Gallina literal")
 ASSUMPTIONS = [
     "\"the query\" is the message Cache.Exec reads (qCtx.Q()): NewContext replaces the client's OPT by a fresh one, so DO "
     "is part of the key only as far as a plugin in front of the cache sets it on qCtx.QOpt() "
@@ -71,7 +76,9 @@ LEVEL_TEXT = ("Theorems in coq/Properties/C04.v: the key built by getMsgKey is i
               "is the step Query q r r for the query it was started for, and Judge.C04.lazy_run runs redirect + lazy cache "
               "that way, and Judge.C04.chain_run runs a response already present in the context and the dual_selector's "
               "sub-queries as such steps); loading a dump yields under a key only what the dump or the cache held under that key "
-              "(Judge.C04.hist_run runs dump / reload steps that way); the same question is served the stored answer; the Judge's oracle same_qf_b is proved "
+              "(Judge.C04.hist_run runs dump / reload steps that way); Judge.C04.flag_run runs the refresh of a stale hit as an "
+              "execution of the same query with the same AD/CD/DO, and spec requires every held or served answer to be the "
+              "downstream's answer to exactly the key's question and flags; the same question is served the stored answer; the Judge's oracle same_qf_b is proved "
               "equivalent to the theorems' notion. The model is run inside Coq on every case the Go driver observed.")
 LEVEL_NOTE = ("Trusted: Coq kernel + vm_compute; hand-written model tied to the code by the differential run and Gen/Constants.v; "
               "Go string equality of map keys; IsEdns0/Do as modelled. No axioms. Kept refutations show the pre-repair key "
